@@ -1,3 +1,4 @@
+import Rspirv.Model.Hyp
 import Rspirv.Generated.Traversals
 import Rspirv.Model.Disasm
 import Rspirv.Generated.Disas
@@ -38,6 +39,16 @@ def respondDisas (ws : List String) : Option String :=
       | .error e => match loadErrText theTables.core bytes e with
         | some t => some ("err " ++ hexOfString t)
         | none => some "panic"
+  | ["reloadhyp", hx] =>
+    -- scope of `C01_reload_bytes`: accepted, traversal of the loaded module a grammar stream, 32-bit words
+    match unhex hx with
+    | none => some "bad-request"
+    | some bytes =>
+      match loadBytes theTables theLTables bytes with
+      | .ok m =>
+        let b (x : Bool) : String := if x then "1" else "0"
+        some s!"ok grammar={b (grammarStreamB theTables [] (Rspirv.Props.C15.allInstIter m))} words32={b ((moduleWords m).all (· < 4294967296))}"
+      | .error _ => some "rejected"
   | ["dismain", hx] =>
     match unhex hx with
     | none => some "bad-request"
